@@ -42,6 +42,7 @@ def run_symbolic(sh, c_, ks, nv, frame=None, all_paths=False):
     ctx = S.current()
     proxy = NumpyProxy()
     C = {k: ctx.var("C" + k[1:]) for k in KEYS}
+    D = {k: ctx.var("D" + k[1:]) for k in KEYS}
     strain = symvars("e", (nv, 3), positive=True)
     key = c_(ks[1:])
 
@@ -79,7 +80,15 @@ def run_symbolic(sh, c_, ks, nv, frame=None, all_paths=False):
             for k in mkr:
                 i, j, kk, l = k.standard
                 o.modulus_rotated[k] = rotated_component(T, C, i - 1, kk - 1)
-            return dict(target=o.get_target_elastic_modulus(), sr=sr, mk=mk, mkr=mkr, T=T, lam=lam, bad_rot=bad_rot,
+            first = o.get_target_elastic_modulus()
+            # the same solver object handed a second tensor (its inputs are plain attributes the caller assigns before each evaluation)
+            o.modulus = {k: D["c%d%d" % k.v] for k in mk}
+            o.modulus_rotated = {}
+            for k in mkr:
+                i, j, kk, l = k.standard
+                o.modulus_rotated[k] = rotated_component(T, D, i - 1, kk - 1)
+            second = o.get_target_elastic_modulus()
+            return dict(target=first, target_again=second, sr=sr, mk=mk, mkr=mkr, T=T, lam=lam, bad_rot=bad_rot,
                         fs=o.fictitious_strain)
 
     paths = X.explore(fn, name="C03:" + ks, max_paths=8)
@@ -92,6 +101,7 @@ def run_symbolic(sh, c_, ks, nv, frame=None, all_paths=False):
             continue
         res = p.result
         res["C"] = C
+        res["D"] = D
         res["strain"] = strain
         res["proxy"] = proxy
         out.append((p, res))
@@ -177,6 +187,32 @@ def check_key(chk, sh, c_, ks, tier, rng):
             else:
                 chk.inconclusive(ks, "target identity unknown")
             break
+    # (1b) the same object evaluated again with a second tensor D: the value is D's component (nothing of the first evaluation is kept)
+    if ok and base.get("target_again") is not None:
+        again_ok = True
+        for iv, tgt in enumerate(targets(base["target_again"])):
+            v, env = Z.prove_zero(tgt - base["D"][ks], name="%s:target==D[again,v%d]" % (ks, iv), timeout_ms=20000)
+            again_ok = again_ok and v == "unsat"
+        chk.obligation("%s:solver object re-used with a second tensor: target == that tensor's component" % ks, "unsat" if again_ok else "sat", kind="history(reuse)")
+        if not again_ok:
+            try:
+                C1, st1, got1, _, T1, mk1 = real_run(sh, c_, ks, rng)
+                o = sh.ShearElasticModulusPhononContribution(st1, c_(ks[1:]))
+                ones = numpy.ones(len(st1))
+                vals = []
+                for scale in (1.0, -0.37):
+                    Cx = {k: scale * v + (0.0 if scale == 1.0 else 11.0) for k, v in C1.items()}
+                    o.modulus = {k: Cx["c%d%d" % k.v] * ones for k in o.get_modulus_keys()}
+                    Tr = numpy.real(numpy.asarray(o.transformation_matrix))
+                    o.modulus_rotated = {k: rotated_component(Tr, Cx, k.standard[0] - 1, k.standard[2] - 1) * ones for k in o.get_modulus_keys_rotated()}
+                    vals.append((float(numpy.asarray(o.get_target_elastic_modulus()).ravel()[0]), Cx[ks]))
+                if abs(vals[1][0] - vals[1][1]) > 1e-8 * (1 + abs(vals[1][1])):
+                    chk.violation("%s:reuse" % ks, "one ShearElasticModulusPhononContribution evaluated for a second tensor returns %.8g for %s, that tensor's component is %.8g "
+                                  "(the first tensor's was %.8g)" % (vals[1][0], ks, vals[1][1], vals[0][1]), dict(key=ks))
+                else:
+                    chk.harness_error("%s: re-use mismatch did not reproduce on the real code" % ks)
+            except Exception as e:
+                chk.harness_error("%s: re-use replay failed: %s" % (ks, e))
     # (2) requested components
     key = c_(ks[1:])
     if key in base["mk"]:
